@@ -163,6 +163,10 @@ extern "C" fn on_signal(sig: i32) {
 
 /// Install the crash handler; breadcrumbs go to `path` (or stderr).
 pub fn install(path: Option<&str>) {
+    if cfg!(miri) {
+        // no signal handlers / raw fds under the interpreter; it reports UB itself
+        return;
+    }
     if let Some(p) = path {
         let c = std::ffi::CString::new(p).unwrap();
         let fd = unsafe { libc::open(c.as_ptr(), libc::O_WRONLY | libc::O_CREAT | libc::O_TRUNC, 0o644) };
